@@ -81,14 +81,14 @@ outer:
 		if len(values) == 0 {
 			continue
 		}
-		var prevStr string
-		for _, str := range values {
-			if str != prevStr {
+		for j, str := range values {
+			// skip adjacent duplicates; compare with the previous value rather than
+			// with "" so that an empty-string value is still written to the key
+			if j == 0 || str != values[j-1] {
 				d.keyBuilder.WriteString(str)
 				d.keyBuilder.WriteRune('•')
 				fieldCount += 1
 			}
-			prevStr = str
 		}
 		// get ready for the next element
 		d.keyBuilder.WriteRune(',')
